@@ -222,7 +222,7 @@ func (e *Environment) makeRef(name string) (*Reference, bool) {
 			ref = r // set and return the original ref instead of ref of ref.
 		}
 		orig.store[name] = ref
-		if !Constant(name) && obj.Type() != FUNC {
+		if !Constant(name) && ref.ObjValue().Type() != FUNC { // look through a reference to a reference.
 			orig.getMiss++ // creating a ref to a non constant is a miss.
 			log.Debugf("makeRef(%s) GETMISS %d", name, orig.getMiss)
 		}
